@@ -147,6 +147,29 @@ class SeqTy(Ty):
         return z3.SeqSort(self.elem.sort)
 
 
+class NpArr2Ty(Ty):
+    """a 2-D numpy float array created by the activation itself (np.full): Array Int (Array Int Real) with a symbolic
+    shape (n, m); stores are functional updates of the local binding"""
+
+    def __init__(self, n, m):
+        self.n, self.m = n, m
+        self.name = "NpArr2"
+
+    @property
+    def sort(self):
+        return z3.ArraySort(z3.IntSort(), z3.ArraySort(z3.IntSort(), z3.RealSort()))
+
+
+class NpRowTy(Ty):
+    def __init__(self, m):
+        self.m = m
+        self.name = "NpRow"
+
+    @property
+    def sort(self):
+        return z3.ArraySort(z3.IntSort(), z3.RealSort())
+
+
 class SetTy(Ty):
     def __init__(self, elem):
         self.elem = elem
